@@ -450,16 +450,27 @@ func (e *soEnv) genMisbehaviourOp(r *Rng, st soState) M {
 	case 2:
 		mseq = 0
 	}
+	// canonical equivocation: both entries validly signed by the current key at the current sequence over
+	// the same (marshalled MerklePath) path and different data, sent through MsgUpdateClient
+	canonical := st.seq != 0 && r.Chance(0.4)
+	if canonical {
+		mseq = st.seq
+	}
 	mkPath := func() []byte {
 		mp := commitmenttypes.NewMerklePath([]byte(Pick(r, soKeys)))
-		if r.Chance(0.25) {
+		if !canonical && r.Chance(0.25) {
 			return []byte(Pick(r, soKeys)) // the raw key, as proofs sign it
 		}
 		return cdc.MustMarshal(&mp)
 	}
 	side := func(other *solomachine.SignatureAndData) (*solomachine.SignatureAndData, M) {
 		sp := signSpec{seq: mseq, ts: st.ts + uint64(r.Intn(4)), div: st.div, path: mkPath(), data: r.Bytes(1 + r.Intn(5))}
-		if other != nil && r.Chance(0.15) {
+		if other != nil && canonical {
+			sp.path = other.Path // same path, different data
+			for bytes.Equal(sp.data, other.Data) {
+				sp.data = r.Bytes(1 + r.Intn(5))
+			}
+		} else if other != nil && r.Chance(0.15) {
 			sp.path, sp.data = other.Path, other.Data // same message twice
 		}
 		if sp.ts == 0 {
@@ -467,7 +478,9 @@ func (e *soEnv) genMisbehaviourOp(r *Rng, st soState) M {
 		}
 		signed := sp
 		kind := "ok"
-		if r.Chance(0.3) {
+		valid := true
+		if !canonical && r.Chance(0.3) {
+			valid = false
 			switch Pick(r, []string{"seq", "ts", "div", "path", "data", "otherkey", "corrupt", "garbage", "nosum", "emptydata"}) {
 			case "seq":
 				signed.seq++
@@ -493,12 +506,13 @@ func (e *soEnv) genMisbehaviourOp(r *Rng, st soState) M {
 		}
 		sd, cls := e.sigData(r, st.key, e.signBytes(signed), kind)
 		s := &solomachine.SignatureAndData{Signature: sd, Path: sp.path, Data: sp.data, Timestamp: sp.ts}
-		return s, M{"sd": cls, "path": Hex(sp.path), "data": Hex(sp.data), "ts": U(sp.ts)}
+		// "valid": the entry is signed by the current key over exactly (mseq, ts, diversifier, path, data)
+		return s, M{"sd": cls, "path": Hex(sp.path), "data": Hex(sp.data), "ts": U(sp.ts), "valid": valid}
 	}
 	one, c1 := side(nil)
 	two, c2 := side(one)
 	m := &solomachine.Misbehaviour{Sequence: mseq, SignatureOne: one, SignatureTwo: two}
-	return M{"f": "update", "validate": r.Chance(0.7), "msgKind": "misbehaviour", "raw": Hex(cdc.MustMarshal(m)),
+	return M{"f": "update", "validate": canonical || r.Chance(0.7), "msgKind": "misbehaviour", "raw": Hex(cdc.MustMarshal(m)),
 		"misb": M{"seq": U(mseq), "one": c1, "two": c2, "sigBytesEqual": bytes.Equal(one.Signature, two.Signature),
 			"sigOneEmpty": len(one.Signature) == 0, "sigTwoEmpty": len(two.Signature) == 0,
 			"pd1": e.pathDecodes(one.Path), "pd2": e.pathDecodes(two.Path)}}
@@ -589,9 +603,9 @@ func soMonitor(r *Rng, n int, report func(Violation)) {
 			switch x := r.Intn(100); {
 			case x < 50:
 				in = e.genProofOp(r, st)
-			case x < 68:
+			case x < 66:
 				in = e.genHeaderOp(r, st)
-			case x < 76:
+			case x < 78:
 				in = e.genMisbehaviourOp(r, st)
 			default:
 				if len(accepted) == 0 {
@@ -621,6 +635,21 @@ func soMonitor(r *Rng, n int, report func(Violation)) {
 			if st.frozen && ok && f != "vm" && f != "vnm" {
 				viol("frozen-accepted", "a frozen solo machine client accepted "+f+" through the 02-client keeper")
 				return
+			}
+			if isMisb && !st.frozen {
+				// two valid signatures by the current key for one sequence over different data, as evidence that
+				// passes ValidateBasic's documented requirements and whose paths are MerklePaths: must freeze
+				mb := in["misb"].(M)
+				one, two := mb["one"].(M), mb["two"].(M)
+				wellFormed := func(x M) bool {
+					return x["valid"] == true && len(B(x, "data")) > 0 && len(B(x, "path")) > 0 && N(x, "ts") != 0
+				}
+				differ := S(one, "path") != S(two, "path") || S(one, "data") != S(two, "data")
+				if N(mb, "seq") != 0 && wellFormed(one) && wellFormed(two) && differ && mb["pd1"] == true && mb["pd2"] == true &&
+					mb["sigBytesEqual"] == false && (!ok || !after.frozen) {
+					viol("misbehaviour-not-frozen", "misbehaviour evidence with two valid signatures of the current key for one sequence over different data (paths are MerklePaths) was rejected or did not freeze the client")
+					return
+				}
 			}
 			if !ok {
 				if after != st {
